@@ -401,8 +401,15 @@ func c14SaveStorm(rep *verifkit.Report, in *sysInst, ls *sysListServer, rng *ran
 			if r > 0 && r%3 == 2 && li == 0 && len(content) > 200 {
 				// A transfer that breaks in the middle of the body: the old
 				// complete version must stay in place.
-				ls.SetCut(path, content, 100+rng.Intn(len(content)-150))
-				rep.Class("cut_transfers_offered")
+				if r%2 == 0 {
+					ls.SetCut(path, content, 100+rng.Intn(len(content)-150))
+					rep.Class("cut_transfers_offered")
+				} else {
+					// Cut once: a second request for the same URL (a retry,
+					// or the next refresh) gets the complete body.
+					ls.SetCutOnce(path, content, 100+rng.Intn(len(content)-150))
+					rep.Class("cut_then_complete_transfers_offered")
+				}
 			} else {
 				ls.Set(path, content)
 			}
